@@ -281,6 +281,7 @@ def run(tier, seed):
     for fam, factor in SG.GROWTH.items():
         for p2 in (False, True):
             pts = sorted((s["_n"], s["states_p3"], s) for s in stats if s["_fam"] == fam and s["_p2"] == p2 and s["states_p3"] and s["states_p3"] > 0)
+            pts = [x for x in pts if x[0] >= SG.GROWTH_FROM.get(fam, 0)]
             if len(pts) >= 2:
                 (n1, a, _), (n2, b, s2) = pts[0], pts[-1]
                 growth.append({"family": fam, "p2": p2, "n": [n1, n2], "states": [a, b], "allowed_factor": factor})
